@@ -6,8 +6,9 @@
    M satisfying the interface [consumer_ok M spec R] (frame-by-frame decoding independent of the cut: C02's theorem for
    the consumer models); they are then instantiated, closed, for the copying consumer over the fixed-size framer. *)
 From Coq Require Import List Arith.
-From EN Require Import Lib.Bytes Frame.Framer Frame.ReadUntil Stream.Consumer Stream.Endpoint Stream.EndpointSpec
-  Proofs.C03_proofs Proofs.C03_fixed.
+From EN Require Import Lib.Bytes Frame.Framer Frame.ReadUntil Frame.BufReadUntil Stream.Consumer Stream.SpecDecode
+  Stream.Endpoint Stream.EndpointSpec Proofs.C03_proofs Proofs.C03_fixed Proofs.C03_readuntil Proofs.C03_bufreaduntil
+  Proofs.C03_instances.
 Import ListNotations.
 
 (* For every transport oracle (chunking, silences, transport errors, position of the peer's close, even data after the
@@ -138,6 +139,170 @@ Theorem timeout_loses_nothing_fixed_size :
     = map of_nres evs ++ [RecvAborted].
 Proof. exact (@fixed_timeout_loses_nothing). Qed.
 Print Assumptions timeout_loses_nothing_fixed_size.
+
+(* ==================================================================================================================
+   Separator framing.  The interface relativised to a prefix-closed predicate G on streams ([consumer_ok_rel], in
+   Stream/EndpointSpec.v): the four theorems hold for every oracle whose stream satisfies G. *)
+Theorem recv_sequence_rel_generic :
+  forall (P C : Type) (M : machine P C) (mode : emode) (spec : bytes -> list (nres P)) (G : bytes -> Prop)
+         (R : C -> bytes -> nat -> Prop) (D : C -> bytes -> Prop),
+    consumer_ok_rel M spec G R D ->
+    forall c0 : C, R c0 [] 0 ->
+    forall (o : oracle) (ts : list (option nat)) (j : nat) (r : rres P),
+      G (stream_of o) ->
+      nth_error (delivered (results (run_calls M mode (linit c0) o ts))) j = Some r ->
+      r = expected (spec (stream_of o)) j.
+Proof. exact (@recv_sequence_rel). Qed.
+Print Assumptions recv_sequence_rel_generic.
+
+(* the interface holds for the two real consumer models over the separator framers, inside the safe band of the limit
+   (copying: payload <= limit; buffer-filling: payload + separator <= limit - 1, the generator's own limit) *)
+Theorem read_until_consumer_ok :
+  forall (P : Type) (sep : bytes) (limit : nat) (keep_end : bool) (dec : decoder P) (bufsize : nat),
+    sep <> [] -> 0 < bufsize ->
+    consumer_ok_rel (copy_machine (ru_framer sep limit keep_end dec) bufsize)
+                    (fun d => fst (spec_events sep keep_end dec d)) (safe sep limit)
+                    (ru_R sep limit keep_end dec) (ru_D sep limit keep_end dec).
+Proof. exact (@ru_consumer_ok_rel). Qed.
+Print Assumptions read_until_consumer_ok.
+
+Theorem buffered_read_until_consumer_ok :
+  forall (P : Type) (sep : bytes) (limit : nat) (keep_end : bool) (dec : decoder P) (sizehint : nat),
+    sep <> [] -> length sep + 1 <= limit ->
+    consumer_ok_rel (buf_machine (bru_framer sep limit keep_end dec) sizehint)
+                    (fun d => fst (spec_events sep keep_end dec d)) (safe sep (limit - 1 - length sep))
+                    (bru_R sep limit keep_end dec) (bru_D sep limit keep_end dec).
+Proof. exact (@bru_consumer_ok_rel). Qed.
+Print Assumptions buffered_read_until_consumer_ok.
+
+(* ---- closed instances, copying receiver (_DataReceiverImpl x StreamDataConsumer x read_until), both keep_end values *)
+Theorem recv_sequence_read_until :
+  forall (P : Type) (sep : bytes) (limit : nat) (keep_end : bool) (dec : decoder P) (bufsize : nat),
+    sep <> [] -> 0 < bufsize ->
+  forall (mode : emode) (o : oracle) (ts : list (option nat)) (j : nat) (r : rres P),
+    safe sep limit (stream_of o) ->
+    nth_error (delivered (results (run_calls (copy_machine (ru_framer sep limit keep_end dec) bufsize) mode
+                                             (linit (cinit (ru_framer sep limit keep_end dec))) o ts))) j = Some r ->
+    r = expected (fst (spec_events sep keep_end dec (stream_of o))) j.
+Proof. exact (@ru_recv_sequence). Qed.
+Print Assumptions recv_sequence_read_until.
+
+Theorem no_partial_delivery_read_until :
+  forall (P : Type) (sep : bytes) (limit : nat) (keep_end : bool) (dec : decoder P) (bufsize : nat),
+    sep <> [] -> 0 < bufsize ->
+  forall (mode : emode) (o : oracle) (ts : list (option nat)) (s1 tail : bytes),
+    safe sep limit (stream_of o) ->
+    stream_of o = s1 ++ tail -> snd (spec_events sep keep_end dec s1) = [] -> find0 sep tail = None ->
+    forall (j : nat) (r : rres P),
+      nth_error (delivered (results (run_calls (copy_machine (ru_framer sep limit keep_end dec) bufsize) mode
+                                               (linit (cinit (ru_framer sep limit keep_end dec))) o ts))) j = Some r ->
+      length (fst (spec_events sep keep_end dec s1)) <= j -> r = RecvAborted.
+Proof. exact (@ru_no_partial). Qed.
+Print Assumptions no_partial_delivery_read_until.
+
+Theorem eof_sticky_read_until :
+  forall (P : Type) (sep : bytes) (limit : nat) (keep_end : bool) (dec : decoder P) (bufsize : nat),
+    sep <> [] -> 0 < bufsize ->
+  forall (mode : emode) (o : oracle) (ts1 : list (option nat)) rs1 st1 o1,
+    safe sep limit (stream_of o) ->
+    run_calls (copy_machine (ru_framer sep limit keep_end dec) bufsize) mode
+              (linit (cinit (ru_framer sep limit keep_end dec))) o ts1 = (rs1, st1, o1) ->
+    forall t st2 o2 el,
+      receive (copy_machine (ru_framer sep limit keep_end dec) bufsize) mode t st1 o1 = (st2, o2, RecvAborted, el) ->
+      forall (ts' : list (option nat)) (o' : oracle),
+        exists st3, run_calls (copy_machine (ru_framer sep limit keep_end dec) bufsize) mode st2 o' ts'
+                    = (map (fun _ => (RecvAborted, o')) ts', st3, o').
+Proof. exact (@ru_eof_sticky). Qed.
+Print Assumptions eof_sticky_read_until.
+
+Theorem timeout_loses_nothing_read_until :
+  forall (P : Type) (sep : bytes) (limit : nat) (keep_end : bool) (dec : decoder P) (bufsize : nat),
+    sep <> [] -> 0 < bufsize ->
+  forall (mode : emode) (o : oracle) (ts : list (option nat)),
+    safe sep limit (stream_of o) ->
+    let evs := fst (spec_events sep keep_end dec (stream_of o)) in
+    firstn (S (length evs))
+           (delivered (results (run_calls (copy_machine (ru_framer sep limit keep_end dec) bufsize) mode
+                                          (linit (cinit (ru_framer sep limit keep_end dec))) o
+                                          (ts ++ repeat None (S (length evs) + raises o)))))
+    = map of_nres evs ++ [RecvAborted].
+Proof. exact (@ru_timeout_loses_nothing). Qed.
+Print Assumptions timeout_loses_nothing_read_until.
+
+(* ---- closed instances, buffer-filling receiver (_BufferedReceiverImpl x BufferedStreamDataConsumer x _buffered_readuntil) *)
+Theorem recv_sequence_buffered_read_until :
+  forall (P : Type) (sep : bytes) (limit : nat) (keep_end : bool) (dec : decoder P) (sizehint : nat),
+    sep <> [] -> length sep + 1 <= limit ->
+  forall (mode : emode) (o : oracle) (ts : list (option nat)) (j : nat) (r : rres P),
+    safe sep (limit - 1 - length sep) (stream_of o) ->
+    nth_error (delivered (results (run_calls (buf_machine (bru_framer sep limit keep_end dec) sizehint) mode
+                                             (linit (bcinit (bru_framer sep limit keep_end dec))) o ts))) j = Some r ->
+    r = expected (fst (spec_events sep keep_end dec (stream_of o))) j.
+Proof. exact (@bru_recv_sequence). Qed.
+Print Assumptions recv_sequence_buffered_read_until.
+
+Theorem no_partial_delivery_buffered_read_until :
+  forall (P : Type) (sep : bytes) (limit : nat) (keep_end : bool) (dec : decoder P) (sizehint : nat),
+    sep <> [] -> length sep + 1 <= limit ->
+  forall (mode : emode) (o : oracle) (ts : list (option nat)) (s1 tail : bytes),
+    safe sep (limit - 1 - length sep) (stream_of o) ->
+    stream_of o = s1 ++ tail -> snd (spec_events sep keep_end dec s1) = [] -> find0 sep tail = None ->
+    forall (j : nat) (r : rres P),
+      nth_error (delivered (results (run_calls (buf_machine (bru_framer sep limit keep_end dec) sizehint) mode
+                                               (linit (bcinit (bru_framer sep limit keep_end dec))) o ts))) j = Some r ->
+      length (fst (spec_events sep keep_end dec s1)) <= j -> r = RecvAborted.
+Proof. exact (@bru_no_partial). Qed.
+Print Assumptions no_partial_delivery_buffered_read_until.
+
+Theorem eof_sticky_buffered_read_until :
+  forall (P : Type) (sep : bytes) (limit : nat) (keep_end : bool) (dec : decoder P) (sizehint : nat),
+    sep <> [] -> length sep + 1 <= limit ->
+  forall (mode : emode) (o : oracle) (ts1 : list (option nat)) rs1 st1 o1,
+    safe sep (limit - 1 - length sep) (stream_of o) ->
+    run_calls (buf_machine (bru_framer sep limit keep_end dec) sizehint) mode
+              (linit (bcinit (bru_framer sep limit keep_end dec))) o ts1 = (rs1, st1, o1) ->
+    forall t st2 o2 el,
+      receive (buf_machine (bru_framer sep limit keep_end dec) sizehint) mode t st1 o1 = (st2, o2, RecvAborted, el) ->
+      forall (ts' : list (option nat)) (o' : oracle),
+        exists st3, run_calls (buf_machine (bru_framer sep limit keep_end dec) sizehint) mode st2 o' ts'
+                    = (map (fun _ => (RecvAborted, o')) ts', st3, o').
+Proof. exact (@bru_eof_sticky). Qed.
+Print Assumptions eof_sticky_buffered_read_until.
+
+Theorem timeout_loses_nothing_buffered_read_until :
+  forall (P : Type) (sep : bytes) (limit : nat) (keep_end : bool) (dec : decoder P) (sizehint : nat),
+    sep <> [] -> length sep + 1 <= limit ->
+  forall (mode : emode) (o : oracle) (ts : list (option nat)),
+    safe sep (limit - 1 - length sep) (stream_of o) ->
+    let evs := fst (spec_events sep keep_end dec (stream_of o)) in
+    firstn (S (length evs))
+           (delivered (results (run_calls (buf_machine (bru_framer sep limit keep_end dec) sizehint) mode
+                                          (linit (bcinit (bru_framer sep limit keep_end dec))) o
+                                          (ts ++ repeat None (S (length evs) + raises o)))))
+    = map of_nres evs ++ [RecvAborted].
+Proof. exact (@bru_timeout_loses_nothing). Qed.
+Print Assumptions timeout_loses_nothing_buffered_read_until.
+
+(* non-vacuity of the safe-band hypothesis: CRLF framing, limit 8, ascii codec; "a\r\n" | silence | "\200\r" "\nbc" (peer
+   closes inside the third frame): safe for both bands, decodes to [packet "a"; decode error], both paths agree *)
+Example c03_read_until_example :
+  let dec := fun b : bytes => if forallb (fun x => N.ltb x 128) b then Some b else None in
+  let o := [TData [97;13;10]%N 0; TWouldTimeout; TData [200;13]%N 2; TData [10;98;99]%N 0; TEof] in
+  safe [13;10]%N 8 (stream_of o) /\ safe [13;10]%N (8 - 1 - 2) (stream_of o)
+  /\ fst (spec_events [13;10]%N false dec (stream_of o)) = [RPkt [97%N]; RErr EDecode]
+  /\ results (run_calls (copy_machine (ru_framer [13;10]%N 8 false dec) 2) Blocking (linit (cinit _)) o
+                        [Some 0; Some 0; None; None; Some 3])
+     = [RecvPkt [97%N]; RecvTimeout; RecvErr EDecode; RecvAborted; RecvAborted]
+  /\ results (run_calls (buf_machine (bru_framer [13;10]%N 8 false dec) 2) Async (linit (bcinit _)) o
+                        [Some 0; Some 0; None; None; Some 3])
+     = [RecvPkt [97%N]; RecvTimeout; RecvErr EDecode; RecvAborted; RecvAborted].
+Proof.
+  cbv zeta. split; [|split; [|vm_compute; repeat split]].
+  - vm_compute. apply (safe_frame _ _ _ 1); [reflexivity|repeat constructor|].
+    apply (safe_frame _ _ _ 1); [reflexivity|repeat constructor|]. apply safe_end; [reflexivity|vm_compute; repeat constructor].
+  - vm_compute. apply (safe_frame _ _ _ 1); [reflexivity|repeat constructor|].
+    apply (safe_frame _ _ _ 1); [reflexivity|repeat constructor|]. apply safe_end; [reflexivity|vm_compute; repeat constructor].
+Qed.
 
 (* ---- non-vacuity: a concrete history.  size 2, identity codec, max_recv_size 3; the peer sends "ab" | silence |
    "cde" then closes inside the third frame; calls: timeout 0, timeout 0, None, None, timeout 5, None. *)
